@@ -53,10 +53,10 @@ def env_trace(tid, beh, cfg, rng, episodes=2, fault_prob=0.15):
         while done < cut:
             if rng.random() < fault_prob:
                 j = rng.randint(1, len(inst))
-                m = rng.randint(0, nm + 1)
+                m = rng.randint(-2, nm + 1)          # 0 is the library's -1; -1, -2 are its -2, -3
                 fin = nxt[j - 1] > len(inst[j - 1])
                 op = None if fin else inst[j - 1][nxt[j - 1] - 1]
-                bad = fin or (m == 0 and len(op["ms"]) > 1) or (m != 0 and m not in op["ms"])
+                bad = fin or m < 0 or (m == 0 and len(op["ms"]) > 1) or (m > 0 and m not in op["ms"])
                 if bad:
                     s.env_step(j, m)
                 continue
